@@ -43,6 +43,7 @@ import (
 	"net/http"
 	"os"
 	"path/filepath"
+	"runtime"
 	"strconv"
 	"strings"
 	"testing"
@@ -901,6 +902,201 @@ func (h *c54h) execute(reqs []*c54req, outcome func(string)) (vs []c54verdict, p
 	return vs, ""
 }
 
+// ------------------------------------------------------------------------------ family F: several responses alive at once
+
+// conn.serve handles one response at a time per connection; a bfe process serves many. Family F
+// holds 3 responses at once at the seam where that is possible deterministically: the server's
+// real HandleReadResponse callback list (the real mod_compress + the probe) is applied to real
+// bfe_http.Response objects (backend stream parsed by the real ReadResponse, request parsed by
+// the real ReadRequest), and the harness plays the consumers the way copyResponse does: Read
+// with a 32 KiB buffer until io.EOF, Close — where Close may come early and twice, as bfe does
+// (CloseWatcher's src.Close() on client disconnect, then sendResponse's res.Body.Close(), then
+// ServeHTTP's deferred res.Body.Close()).
+type c54fresp struct {
+	res     *bfe_http.Response
+	body    []byte
+	enc     string
+	started bool
+	eof     bool
+	rerr    error
+	closes  int
+	aborted bool // closed before io.EOF was seen: the client is gone, nothing is judged
+	out     []byte
+}
+
+type c54fev struct {
+	op byte // 's' start, 'r' read, 'c' close
+	i  int
+}
+
+func (e c54fev) String() string { return fmt.Sprintf("%c%c", e.op, 'A'+byte(e.i)) }
+
+func (h *c54h) fstart(x *c54fresp, ru c54rule) {
+	raw := fmt.Sprintf("GET /b?r=%s HTTP/1.1\r\nHost: example.org\r\nAccept-Encoding: gzip, br\r\n\r\n", ru.name())
+	hreq, err := bfe_http.ReadRequest(bfe_bufio.NewReader(strings.NewReader(raw)), h.srv.MaxHeaderUriBytes)
+	if err != nil {
+		panic("c54 harness: request unparsable: " + err.Error())
+	}
+	cconn := &c54conn{}
+	breq := bfe_basic.NewRequest(hreq, cconn, bfe_basic.NewRequestStat(hreq.State.StartTime), bfe_basic.NewSession(cconn), h.srv.GetServerConf())
+	breq.Route.Product = "p" // what the real host table lookup yields for example.org
+	be := &c54backend{status: 200, framing: "cl", body: x.body}
+	res, err := bfe_http.ReadResponse(bfe_bufio.NewReader(&c54frag{pieces: be.pieces("GET")}), hreq)
+	if err != nil {
+		panic("c54 harness: backend script unparsable: " + err.Error())
+	}
+	h.probes = h.probes[:0]
+	h.srv.CallBacks.GetHandlerList(bfe_module.HandleReadResponse).FilterResponse(breq, res)
+	switch h.probes[len(h.probes)-1].bodyType {
+	case "*mod_compress.GzipFilter":
+		x.enc = "gzip"
+	case "*mod_compress.BrotliFilter":
+		x.enc = "br"
+	default:
+		panic(fmt.Sprintf("c54 harness: family F response was not compressed: probes %v, header %v, query %v, ae %q", h.probes, res.Header, breq.CachedQuery(), hreq.Header.GetDirect("Accept-Encoding")))
+	}
+	x.res = res
+	x.started = true
+}
+
+// c54fenabled lists the enabled events in a fixed order.
+func c54fenabled(rs []*c54fresp) []c54fev {
+	var evs []c54fev
+	next := -1
+	for i, x := range rs {
+		if !x.started {
+			if next < 0 {
+				next = i
+			}
+			continue
+		}
+		if x.closes == 0 && !x.eof && x.rerr == nil {
+			evs = append(evs, c54fev{'r', i})
+		}
+	}
+	for i, x := range rs {
+		if x.started && x.closes < 2 {
+			evs = append(evs, c54fev{'c', i})
+		}
+	}
+	if next >= 0 {
+		evs = append(evs, c54fev{'s', next})
+	}
+	return evs
+}
+
+// frun executes one history: `depth` chosen events, then the completion (start what was not
+// started, read all open responses round-robin to io.EOF, close each once) and judges every
+// response that was read to io.EOF before its first Close.
+func (h *c54h) frun(ru c54rule, depth int, pick func(n int) int, outcome func(string)) (hist []c54fev, vs []c54verdict, aborted bool) {
+	rs := []*c54fresp{
+		{body: []byte(strings.Repeat("Alpha response body line.\n", 6))},
+		{body: []byte(strings.Repeat("bravo-BRAVO-bravo 0123456789;", 5))},
+		{body: []byte(strings.Repeat("<c>charlie</c>\r\n", 11))},
+	}
+	buf := make([]byte, 32*1024)
+	do := func(e c54fev) {
+		x := rs[e.i]
+		switch e.op {
+		case 's':
+			h.fstart(x, ru)
+		case 'r':
+			n, err := x.res.Body.Read(buf)
+			x.out = append(x.out, buf[:n]...)
+			if err == io.EOF {
+				x.eof = true
+			} else if err != nil {
+				x.rerr = err
+			}
+		case 'c':
+			if !x.eof && x.rerr == nil {
+				x.aborted = true
+			}
+			x.res.Body.Close()
+			x.closes++
+		}
+		hist = append(hist, e)
+	}
+	for step := 0; step < depth; step++ {
+		evs := c54fenabled(rs)
+		if len(evs) == 0 {
+			break
+		}
+		k := pick(len(evs))
+		if k < 0 {
+			// foreign shard: leave cleanly
+			for _, x := range rs {
+				if x.started && x.closes == 0 {
+					x.res.Body.Close()
+				}
+			}
+			return hist, nil, true
+		}
+		do(evs[k])
+	}
+	for i, x := range rs {
+		if !x.started {
+			do(c54fev{'s', i})
+		}
+	}
+	for open := true; open; {
+		open = false
+		for i, x := range rs {
+			if x.closes == 0 && !x.eof && x.rerr == nil {
+				do(c54fev{'r', i})
+				open = true
+			}
+		}
+	}
+	for i, x := range rs {
+		if x.closes == 0 {
+			do(c54fev{'c', i})
+		}
+	}
+	for i, x := range rs {
+		name := string('A' + byte(i))
+		switch {
+		case x.aborted:
+			outcome("F:aborted-unjudged")
+			continue
+		case x.rerr != nil:
+			vs = append(vs, c54verdict{
+				sig:    fmt.Sprintf("body:%s:concurrent-responses:read-error", x.enc),
+				detail: fmt.Sprintf("response %s: Read failed with %v after %d bytes although its backend stream is intact", name, x.rerr, len(x.out)),
+			})
+			continue
+		}
+		if ce := x.res.Header["Content-Encoding"]; len(ce) != 1 || ce[0] != x.enc {
+			vs = append(vs, c54verdict{sig: fmt.Sprintf("announce:%s:concurrent-responses:content-encoding-differs", x.enc), detail: fmt.Sprintf("response %s: Content-Encoding %q", name, ce)})
+		}
+		if cl := x.res.Header["Content-Length"]; len(cl) != 0 {
+			vs = append(vs, c54verdict{sig: fmt.Sprintf("length:%s:concurrent-responses:content-length-kept", x.enc), detail: fmt.Sprintf("response %s: Content-Length %q handed on with a compressed body", name, cl)})
+		}
+		var plain []byte
+		var derr error
+		if x.enc == "gzip" {
+			plain, derr = c54gunzip(x.out)
+		} else {
+			plain, derr = c54unbrotli(x.out)
+		}
+		switch {
+		case derr != nil:
+			vs = append(vs, c54verdict{
+				sig:    fmt.Sprintf("body:%s:concurrent-responses:does-not-decompress", x.enc),
+				detail: fmt.Sprintf("response %s: %v; %d compressed bytes %s, %d plain bytes recovered, backend body %d bytes", name, derr, len(x.out), c54short(x.out), len(plain), len(x.body)),
+			})
+		case !bytes.Equal(plain, x.body):
+			vs = append(vs, c54verdict{
+				sig:    fmt.Sprintf("body:%s:concurrent-responses:decompressed-differs", x.enc),
+				detail: fmt.Sprintf("response %s: decompressed %d bytes %s, backend body %d bytes %s", name, len(plain), c54short(plain), len(x.body), c54short(x.body)),
+			})
+		default:
+			outcome("F:ok:" + x.enc)
+		}
+	}
+	return hist, vs, false
+}
+
 // ------------------------------------------------------------------------------ enumeration
 
 var c54aeAlphabet = [][]string{
@@ -1222,6 +1418,84 @@ func TestVerifC54(t *testing.T) {
 				}
 			}
 		}
+	}
+
+	// ---- family F: 3 compressed responses alive at once; every sequence of `depth` events over
+	//      {read X, close X (up to twice, also before EOF), start next} followed by the
+	//      round-robin completion. Every history is executed twice; the pool-like caches a
+	//      module may keep (sync.Pool) are emptied before each execution (two GC cycles), so
+	//      an execution depends on its own history only.
+	for _, fc := range []struct {
+		ru    c54rule
+		depth int
+	}{
+		{c54rule{"GZIP", 1, 64}, r.Pick(6, 8)},
+		{c54rule{"GZIP", 6, 100}, r.Pick(5, 6)},
+		{c54rule{"BROTLI", 1, 64}, r.Pick(4, 5)},
+	} {
+		if only != "" && only != "F" {
+			break
+		}
+		fc := fc
+		name := "F:" + fc.ru.name()
+		vk.ExploreSharded(r, name, 2, -1, func(ch *vk.Chooser) {
+			var first []c54fev
+			var all []c54verdict
+			for pass := 0; pass < 2; pass++ {
+				runtime.GC()
+				runtime.GC()
+				var hist []c54fev
+				var vs []c54verdict
+				var skipped bool
+				step := 0
+				pan, val := vk.Guard(func() {
+					hist, vs, skipped = h.frun(fc.ru, fc.depth, func(n int) int {
+						if pass == 0 {
+							k := ch.Choose(n)
+							if ch.Skipped {
+								return -1
+							}
+							return k
+						}
+						k := ch.Trace()[step]
+						step++
+						return k
+					}, func(c string) {
+						r.Outcome(c)
+					})
+				})
+				if skipped {
+					return
+				}
+				if pan && strings.Contains(val, "c54 harness:") {
+					panic(val)
+				}
+				if pan {
+					r.Outcome("F:panic")
+					nPanics++
+					r.Sample(map[string]string{"panic": val, "case": ch.CaseID(name)})
+					vs = append(vs, c54verdict{sig: "body:" + fc.ru.enc() + ":concurrent-responses:panic-in-filter:" + vk.PanicSite(val), detail: val})
+				}
+				if pass == 0 {
+					first = hist
+				}
+				all = append(all, vs...)
+			}
+			id := ch.CaseID(name)
+			famE["F"]++
+			if !r.Case(id) {
+				return
+			}
+			famN["F"]++
+			r.Nontrivial(id)
+			if nSamples["F"] < 2 {
+				nSamples["F"]++
+				r.Sample(map[string]interface{}{"case": id, "history": fmt.Sprint(first), "violations": len(all)})
+			}
+			for _, v := range all {
+				r.Violation(v.sig, id, fmt.Sprintf("history %v: %s", first, v.detail))
+			}
+		}, func() bool { return stop || r.Expired("enumeration (family F)") })
 	}
 
 	// ---- family B: body length x content x backend chunking x level x flush size.
